@@ -196,6 +196,9 @@ def worker_main(a):
     i = a.worker
     done = 0
     samples_left = 1 if a.worker == 0 else 0
+    only = [int(x) for x in a.only.split(",") if x] if getattr(a, "only", "") else None
+    if only:
+        i = only.pop(0)
     while i < a.count:
         if t_end is not None and REAL_TIME() > t_end:
             break
@@ -217,7 +220,12 @@ def worker_main(a):
             faulthandler.cancel_dump_traceback_later()
         out.write(json.dumps(res, default=str) + "\n")
         out.flush()
-        i += a.of
+        if only is not None:
+            if not only:
+                break
+            i = only.pop(0)
+        else:
+            i += a.of
         done += 1
         if done % 20 == 0:
             gc.collect()        # reference cycles of finished scenarios (and the descriptors they hold)
@@ -264,6 +272,7 @@ def main():
     ap.add_argument("--no-evidence", action="store_true")
     ap.add_argument("--no-shrink", action="store_true")
     ap.add_argument("--no-selftest", action="store_true")
+    ap.add_argument("--only", default="")
     a = ap.parse_args()
     if a.scenario_timeout is None:
         # a hang detector, not a budget: exhaustive enumerations of the thorough tier take minutes per
@@ -362,6 +371,9 @@ def check_main(a):
             cmp_n, mism = selftest.determinism_phase(prop, a.seed, min(n_det, count), results, work)
             selftests["determinism_fresh_interpreters_compared"] = cmp_n
             selftests["determinism_fresh_interpreters_mismatches"] = len(mism)
+            selftests["determinism_transient_differences_not_reproduced"] = len(selftest.TRANSIENT)
+            if selftest.TRANSIENT:
+                print("NOTE: digest difference that did not reproduce in two fresh recomputations: " + selftest.TRANSIENT[0][:300])
             for m in mism[:3]:
                 herrors.append("nondeterminism across interpreters (PYTHONHASHSEED / worker split): " + m)
             if prop == "C05":
